@@ -71,10 +71,19 @@ where
     T: TryFromHeaderValue,
     T::Error: std::error::Error + Send + Sync + 'static,
 {
+    // a list-valued header carries comma-separated elements, possibly over several field lines
+    // <https://www.rfc-editor.org/rfc/rfc9110#section-5.6.1>
     let mut list = List::new();
     for val in req.headers.get_all(name) {
-        let ans = T::try_from_header_value(val).map_err(|err| invalid_header(err, name, val))?;
-        list.push(ans);
+        for part in val.as_bytes().split(|&b| b == b',') {
+            let part = part.trim_ascii();
+            if part.is_empty() {
+                continue;
+            }
+            let elem = HeaderValue::from_bytes(part).map_err(|err| invalid_header(err, name, val))?;
+            let ans = T::try_from_header_value(&elem).map_err(|err| invalid_header(err, name, val))?;
+            list.push(ans);
+        }
     }
     if required && list.is_empty() {
         return Err(missing_header(name));
